@@ -156,6 +156,21 @@ CHECKS = {
             "trusted: the model functions in mc/checks/c10.py (120 lines) and mc/geom.py; incoming.left_of and "
             "sign.first_occurrence are not asserted (not reference kinds of the statement)",
             "DESIGN.md §4 C10"),
+    "C11": ("explicit-state BFS over interleavings of public mutators and cache-filling queries on real objects (5 subjects), "
+            "each history replayed on a fresh object, with a differential oracle: live object vs an object rebuilt through "
+            "the public constructors from the live object's current primary data",
+            "Subjects: dynamic obstacle + trajectory prediction (kinematic and point-mass trajectories; 16 operations: "
+            "translate_rotate at obstacle/prediction/trajectory level, shape=, trajectory=, update_prediction, prediction=, "
+            "initial_state=, update_initial_state with history lengths 1..3, query-all), lanelet network (translate_rotate at "
+            "network and lanelet level, add/remove with and without index rebuild, query-all), traffic light (cycle_elements=, "
+            "element duration/state, time_offset=, cycle=, append, query), whole scenario. Depth 3-4 (thorough 4-5); after "
+            "every transition all queries (occupancy/state at t, occupancy_set, polygon, distance, interpolate, "
+            "contains_points, lookups by position and shape, light state) are compared live vs fresh; history lists vs a list "
+            "model.",
+            "trusted: the fresh-rebuild functions (public constructors only). Two known findings listed (lanelet-level and "
+            "trajectory-level translate_rotate cannot reach the caches of the containing network / prediction); lookups are not "
+            "compared while the caller has deferred the index with rtree=False",
+            "DESIGN.md §4 C11"),
 }
 
 NOT_YET = {}
